@@ -285,9 +285,73 @@ def check_plot(rep, ix):
         recv_o = [_n(b.test.operand.func.value) for b, lab in deps if isinstance(b, ast.If) and isinstance(b.test, ast.UnaryOp) and isinstance(b.test.operand, ast.Call) and isinstance(b.test.operand.func, ast.Attribute) and b.test.operand.func.attr == 'offScale']
         ok = ok and recv_w == recv_o and len(recv_w) == 1
     rep.ob('R-C19-PLOT', site, 'a point is appended only when its wrap is on scale for the back-up mode of the same curve, at the position wrapPos returned', ok, node=lp, module=m)
+    # interpolation across a wrap needs this curve's own previous point: the condition tests per-curve state that is set only
+    # after a successful wrapPos (xPrev alone advances on frames where the scale refused the value)
+    ok = False
+    found = ''
+    if len(interp) == 1 and len(tries) == 1 and isinstance(tries[0].body[0], ast.Assign) and isinstance(tries[0].body[0].targets[0], ast.Tuple):
+        wr, pt = (e.id for e in tries[0].body[0].targets[0].elts)
+        deps = [b for b, lab in g.control_deps(interp[0]) if lab == 'true' and isinstance(b, ast.If) and any(b is x for x in ast.walk(ast.Module(body=tries[0].orelse, type_ignores=[])))]
+        if deps:
+            test = deps[-1].test
+            conj = test.values if isinstance(test, ast.BoolOp) and isinstance(test.op, ast.And) else [test]
+            found = ast.unparse(test)
+            curve_vars = {n.id for s_ in wraps for c_ in cfgmod.calls_at(s_) if isinstance(c_.func, ast.Attribute) and c_.func.attr == 'wrapPos' for n in ast.walk(c_.func.value) if isinstance(n, ast.Name)}
+            loopvars = {n.id for n in ast.walk(lp) if isinstance(n, ast.For) and n is not lp for n in ast.walk(n.target) if isinstance(n, ast.Name)}
+            has_wrap = any(isinstance(c, ast.Compare) and isinstance(c.ops[0], ast.NotEq) and wr in (_n(c.left), _n(c.comparators[0])) and any('prevWrap' in _n(x) for x in (c.left, c.comparators[0])) for c in conj)
+            state = []
+            for c in conj:
+                if isinstance(c, ast.Compare) and len(c.ops) == 1 and isinstance(c.ops[0], ast.IsNot) and isinstance(c.comparators[0], ast.Constant) and c.comparators[0].value is None:
+                    names = {n.id for n in ast.walk(c.left) if isinstance(n, ast.Name)}
+                    if names & (curve_vars | loopvars):
+                        state.append(c.left)
+            # the per-curve state is stored only in the else-branch (after a successful wrapPos)
+            good = []
+            for e in state:
+                stores = [n for n in ast.walk(lp) if isinstance(n, ast.Assign) and any(_n(t) == _n(e) for t in n.targets)]
+                if stores and all(any(st_ is x for x in ast.walk(ast.Module(body=tries[0].orelse, type_ignores=[]))) for st_ in stores):
+                    good.append(e)
+            ok = has_wrap and bool(good)
+    rep.ob('R-C19-PLOT', site, 'a wrap is interpolated only from this curve\'s own previous point (per-curve state set after a successful scale transformation is tested for None)', ok,
+           found=found, required='wr != <curve>.prevWrap and ... <per-curve previous point> is not None', node=lp, module=m)
     # flush after the loop
     after = [s for s in f.body if isinstance(s, ast.For) and s is not lp and any(isinstance(x, ast.Call) and _n(x.func) == 'self._flushPolyLineBuffer' for x in ast.walk(s))]
     rep.ob('R-C19-PLOT', site, 'buffers are flushed after the last point', any(f.body.index(s) > f.body.index(lp) for s in after) if lp in f.body else False, node=f, module=m)
+
+
+def check_precheck(rep, ix):
+    """plotLogPassLIS / plotLogPassLAS answer (None, None) when the film has nothing to plot; every caller asserts a result, so
+    every call must be made under the matching hasDataToPlot test for the same log pass and the same film."""
+    pm = ix.module(PL)
+    for fn, has, pos_pass, pos_film in (('plotLogPassLIS', 'hasDataToPlotLIS', 2, 5), ('plotLogPassLAS', 'hasDataToPlotLAS', 1, 4)):
+        f = ix.get_func(PL, f'Plot.{fn}')
+        ps = [a.arg for a in f.args.args]
+        early = [n for n in f.body if isinstance(n, ast.If) and _n(n.test) == f'notself.{has}({ps[pos_pass]},{ps[pos_film]})' and isinstance(n.body[-1], ast.Return)]
+        rep.ob('R-C19-PLOT', f'{PL}:Plot.{fn}', f'premise: returns early without a result when {has} is false', len(early) == 1, node=f, module=pm)
+    n = 0
+    for mn in (PLOGS, 'TotalDepth.LIS.PlotLogPasses'):
+        if not ix.has_module(mn):
+            continue
+        mod = ix.module(mn)
+        for f in ast.walk(mod.tree):
+            if not isinstance(f, ast.FunctionDef):
+                continue
+            for c in common.calls_in(f):
+                if isinstance(c.func, ast.Attribute) and c.func.attr in ('plotLogPassLIS', 'plotLogPassLAS'):
+                    n += 1
+                    lis = c.func.attr.endswith('LIS')
+                    has = 'hasDataToPlotLIS' if lis else 'hasDataToPlotLAS'
+                    a_pass = _n(c.args[1 if lis else 0])
+                    a_film = _n(c.args[4 if lis else 3])
+                    recv = _n(c.func.value)
+                    st = cfgmod.stmt_of(c, f)
+                    g = cfgmod.CFG(f)
+                    want = f'{recv}.{has}({a_pass},{a_film})'
+                    ok = any(lab == 'true' and isinstance(b, ast.If) and _n(b.test) == want for b, lab in g.control_deps(st))
+                    cls = enclosing_class(f)
+                    rep.ob('R-C19-PLOT', f'{mn}:{cls.name + "." if cls else ""}{f.name}', f'{c.func.attr}(...) is called only when {has} holds for the same pass and film', ok,
+                           found='guards: ' + '; '.join(_n(b.test) for b, lab in g.control_deps(st) if isinstance(b, ast.If))[:160], required=want, node=c, module=mod)
+    rep.ob('R-C19-PLOT', 'scan', 'plot entry call sites found', n >= 5, found=str(n))
 
 
 def check_xunits(rep, ix):
@@ -433,9 +497,10 @@ def check_api(rep, ix):
 def run(rep, ix, tier):
     check_wrap(rep, ix)
     check_plot(rep, ix)
+    check_precheck(rep, ix)
     check_xunits(rep, ix)
     check_api(rep, ix)
     rep.floor('R-C19-WRAP', 18)
-    rep.floor('R-C19-PLOT', 7)
+    rep.floor('R-C19-PLOT', 16)
     rep.floor('R-C19-XUNITS', 9)
     rep.floor('R-C19-API', 20)
